@@ -8,6 +8,9 @@ open Chess.Props.C10
 #print axioms drainSt_round
 #print axioms rounds_cover
 #print axioms rounds_legals
+#print axioms len_eq_midgroup
+#print axioms len_along_iteration
+#print axioms next_along_iteration
 #print axioms Chess.Props.C10.entryMoves_eq
 #print axioms Chess.Props.C10.movesOf_eq
 #print axioms Chess.Props.C10.promo_count
